@@ -13,7 +13,7 @@ T = {
 T["C12"] = ("exact-rational payoff contracts on functional payoffs and payoff_fn + clause-order fold check",
             "Every functional payoff call (all aliases) and every derivative payoff_fn call made by generated paths (ties with the strike, T=1/2, "
             "monotone/constant paths) and simulated derivatives is compared per path with the contractual definition in exact arithmetic; "
-            "ordering relations and the registration-order fold of clauses are checked on the same paths.", "4 C12")
+            "ordering relations and the registration-order fold of clauses (incl. the same callable registered twice, reassigned contract terms) are checked on the same paths. One known finding (forward-start reference step for some on-grid start times).", "4 C12 / 8.3")
 T["C13"] = ("exact-rational grid-size contract at every simulate() exit + time-to-maturity value checks",
             "Every primary/derivative simulate() in a sweep over (dt, k, way of writing the maturity) x 8 primaries is judged against T = ceil(M/dt)+1 computed in exact "
             "rational arithmetic; time_to_maturity values, negative indices and consumer shapes are checked on the same grid. One known finding (float ratio just above an integer).", "4 C13")
